@@ -14,7 +14,7 @@ from typing import Dict, List
 
 class LockSpec:
     def __init__(self, cls_qual, guarded: Dict[str, str], atomic_read_ok=(), holds=(), props=(), owner="self",
-                 external_modules=(), note="", init_phase=()):
+                 external_modules=(), note="", init_phase=(), guarded_foreign=None):
         self.cls_qual = cls_qual
         self.guarded = dict(guarded)            # field -> lock field
         self.atomic_read_ok = set(atomic_read_ok)   # fields whose single unlocked READ of an immutable value is allowed
@@ -23,6 +23,9 @@ class LockSpec:
         self.external_modules = list(external_modules)
         self.note = note
         self.init_phase = set(init_phase)        # methods that run during construction only (called from __init__)
+        # attribute of OTHER objects (any receiver but self) that this class only touches under one of its locks,
+        # e.g. Router reads / writes <LocTE>.ls_pending only inside _ls_lock (it is the "lookup in progress" decision state)
+        self.guarded_foreign = dict(guarded_foreign or {})
 
 
 def _with_locks(node: ast.With):
@@ -47,11 +50,19 @@ class _Visitor(ast.NodeVisitor):
         self.nblocks = 0
         self.taint = {}         # local name -> {(guarded field, critical section id it was read in)}
         self.stale_writes = []  # (field, lineno, read block, write block)
+        self.foreign = []       # (attr, lineno, kind, ok, lock)
 
     # ---- read-modify-write of a guarded field must happen inside ONE critical section
     def _taint_of(self, expr):
         out = set()
         for n in ast.walk(expr):
+            if isinstance(n, ast.Call) and isinstance(n.func, ast.Attribute) and isinstance(n.func.value, ast.Name) \
+                    and n.func.value.id == "self" and n.func.attr in getattr(self, "method_reads", {}):
+                # the value returned by an own method that reads a guarded field in its OWN critical section is a
+                # snapshot taken in a separate critical section
+                self.ncalls = getattr(self, "ncalls", 0) + 1
+                for fld in self.method_reads[n.func.attr]:
+                    out.add((fld, -self.ncalls))
             if isinstance(n, ast.Attribute) and isinstance(n.value, ast.Name) and n.value.id == "self" \
                     and n.attr in self.spec.guarded and isinstance(n.ctx, ast.Load):
                 out.add((n.attr, self.block[-1]))
@@ -104,6 +115,10 @@ class _Visitor(ast.NodeVisitor):
             self.visit(it.context_expr)
 
     def visit_Attribute(self, node):
+        if node.attr in self.spec.guarded_foreign and not (isinstance(node.value, ast.Name) and node.value.id == "self"):
+            lock = self.spec.guarded_foreign[node.attr]
+            kind = "write" if isinstance(node.ctx, (ast.Store, ast.Del)) else "read"
+            self.foreign.append((node.attr, node.lineno, kind, lock in self.held, lock))
         if isinstance(node.value, ast.Name) and node.value.id == "self" and node.attr in self.spec.guarded:
             lock = self.spec.guarded[node.attr]
             kind = "write" if isinstance(node.ctx, (ast.Store, ast.Del)) else "read"
@@ -114,8 +129,27 @@ class _Visitor(ast.NodeVisitor):
             self.accesses.append((node.attr, node.lineno, kind, ok))
         self.generic_visit(node)
 
+    MUTATORS = {"pop", "remove", "discard", "add", "append", "insert", "update", "setdefault", "popitem", "extend", "__setitem__", "__delitem__"}
+
+    def _stale_mutation(self, fld, args, lineno):
+        t = set()
+        for a in args:
+            t |= self._taint_of(a)
+        for f2, blk in t:
+            if f2 == fld and blk != self.block[-1] and blk not in self.block and blk != 0:
+                self.stale_writes.append((fld, lineno, blk, self.block[-1]))
+
+    def visit_Subscript(self, node):
+        if isinstance(node.ctx, (ast.Store, ast.Del)) and isinstance(node.value, ast.Attribute) \
+                and isinstance(node.value.value, ast.Name) and node.value.value.id == "self" and node.value.attr in self.spec.guarded:
+            self._stale_mutation(node.value.attr, [node.slice], node.lineno)
+        self.generic_visit(node)
+
     def visit_Call(self, node):
         f = node.func
+        if isinstance(f, ast.Attribute) and f.attr in self.MUTATORS and isinstance(f.value, ast.Attribute) \
+                and isinstance(f.value.value, ast.Name) and f.value.value.id == "self" and f.value.attr in self.spec.guarded:
+            self._stale_mutation(f.value.attr, list(node.args) + [k.value for k in node.keywords], node.lineno)
         if isinstance(f, ast.Attribute) and isinstance(f.value, ast.Name) and f.value.id == "self":
             self.calls_held.append((f.attr, tuple(self.held), node.lineno))
         if isinstance(f, ast.Attribute) and f.attr in ("acquire", "release"):
@@ -137,9 +171,19 @@ def check(repo, spec: LockSpec):
     out = []
     acquires: Dict[str, set] = {}      # method -> locks it acquires itself
     per_method = {}
+    method_reads = {}
+    for mname, fn in ci.methods.items():
+        rd = set()
+        for n in ast.walk(fn):
+            if isinstance(n, ast.Attribute) and isinstance(n.value, ast.Name) and n.value.id == "self" \
+                    and n.attr in spec.guarded and isinstance(n.ctx, ast.Load):
+                rd.add(n.attr)
+        if rd and any(isinstance(n, ast.Return) and n.value is not None for n in ast.walk(fn)):
+            method_reads[mname] = rd
     for mname, fn in ci.methods.items():
         held0 = [spec.holds[mname]] if mname in spec.holds and spec.holds[mname] else []
         v = _Visitor(spec, mname, held0)
+        v.method_reads = method_reads
         for s in fn.body:
             v.visit(s)
         per_method[mname] = v
@@ -165,6 +209,10 @@ def check(repo, spec: LockSpec):
                                   (f"under {spec.guarded[fld]}" if ok and kind != "atomic-read" else
                                    "single read of an immutable value (allowed)" if ok else
                                    f"is NOT inside `with self.{spec.guarded[fld]}:`")})
+        for attr, line, kind, ok, lock in v.foreign:
+            out.append({"name": f"{spec.cls_qual}.{mname}/guarded_by:{attr}@{kind}(foreign)", "line": line,
+                        "status": "proved" if ok else "refuted", "kind": "ownership",
+                        "detail": f"{kind} of <object>.{attr} at line {line} " + (f"under {lock}" if ok else f"is NOT inside `with self.{lock}:`")})
         for fld, line, rb, wb in v.stale_writes:
             out.append({"name": f"{spec.cls_qual}.{mname}/read-modify-write-in-one-critical-section:{fld}", "line": line,
                         "status": "refuted", "kind": "ownership",
